@@ -86,6 +86,158 @@ def _resolve_alias(fn_nodes, e: ast.expr) -> ast.expr:
     return e
 
 
+def _key_names(gi: FuncInfo) -> Set[str]:
+    """the lookup key: __getitem__'s parameter, and the parameter of a helper that receives it"""
+    ps = [a.arg for a in gi.node.args.posonlyargs + gi.node.args.args]
+    keys = set(ps[1:2])
+    p = _PROGRAM.get("p")
+    for n in ast.walk(gi.node):
+        if isinstance(n, ast.Call) and p is not None:
+            g, off = None, 0
+            if isinstance(n.func, ast.Attribute) and isinstance(n.func.value, ast.Name) and n.func.value.id in ("self", "cls") and gi.owner is not None:
+                _, g = p.class_attr_def(gi.owner, n.func.attr)
+                off = 0 if isinstance(g, FuncInfo) and g.kind == "staticmethod" else 1
+            elif isinstance(n.func, ast.Name):
+                g = gi.module.functions.get(n.func.id)
+            if isinstance(g, FuncInfo):
+                gps = [a.arg for a in g.node.args.posonlyargs + g.node.args.args]
+                for i, a in enumerate(n.args):
+                    if isinstance(a, ast.Name) and a.id in keys and i + off < len(gps):
+                        keys.add(gps[i + off])
+                for k in n.keywords:
+                    if isinstance(k.value, ast.Name) and k.value.id in keys and k.arg:
+                        keys.add(k.arg)
+    return keys
+
+
+def _is_stem_expr(trees, e: ast.expr, opened: List[str], keys: Set[str], depth: int = 0) -> bool:
+    """e evaluates to the key that was looked up: the key itself, str(key), or the stem of the path that was opened"""
+    if depth > 4:
+        return False
+    if isinstance(e, ast.Name) and e.id in keys:
+        return True
+    if isinstance(e, ast.Call) and isinstance(e.func, ast.Name) and e.func.id == "str" and len(e.args) == 1:
+        return _is_stem_expr(trees, e.args[0], opened, keys, depth + 1)
+    if isinstance(e, ast.Subscript) and isinstance(e.slice, ast.Constant) and e.slice.value == 0 and _is_splitext_of(e.value, opened):
+        return True
+    if isinstance(e, ast.Name):
+        # a local: every binding must be a stem expression (first element of `stem, ext = splitext(opened)`)
+        binds = []
+        for t in trees:
+            for n in ast.walk(t):
+                if isinstance(n, ast.Assign):
+                    for tg in n.targets:
+                        if isinstance(tg, ast.Name) and tg.id == e.id:
+                            binds.append(("whole", n.value))
+                        elif isinstance(tg, (ast.Tuple, ast.List)):
+                            for i, el in enumerate(tg.elts):
+                                if isinstance(el, ast.Name) and el.id == e.id:
+                                    binds.append(("elem%d" % i, n.value))
+        if not binds:
+            return False
+        for kind, v in binds:
+            if kind == "whole":
+                if not _is_stem_expr(trees, v, opened, keys, depth + 1):
+                    return False
+            elif not (kind == "elem0" and _is_splitext_of(v, opened)):
+                return False
+        return True
+    return False
+
+
+def _is_splitext_of(e: ast.expr, opened: List[str]) -> bool:
+    if not (isinstance(e, ast.Call) and len(e.args) == 1):
+        return False
+    f = e.func
+    name = f.attr if isinstance(f, ast.Attribute) else f.id if isinstance(f, ast.Name) else None
+    return name == "splitext" and ast.unparse(e.args[0]) in opened
+
+
+def _id_stores(trees):
+    """[(receiver name, kind, value)] for every store to <local>.id"""
+    out = []
+    for t in trees:
+        for n in ast.walk(t):
+            if isinstance(n, ast.Assign):
+                for tg in n.targets:
+                    if isinstance(tg, ast.Attribute) and tg.attr == "id" and isinstance(tg.value, ast.Name):
+                        out.append((tg.value.id, "whole", n.value, n))
+                    elif isinstance(tg, (ast.Tuple, ast.List)):
+                        for i, el in enumerate(tg.elts):
+                            if isinstance(el, ast.Attribute) and el.attr == "id" and isinstance(el.value, ast.Name):
+                                out.append((el.value.id, "elem%d" % i, n.value, n))
+            elif isinstance(n, ast.Call) and isinstance(n.func, ast.Name) and n.func.id == "setattr" and len(n.args) == 3 \
+                    and isinstance(n.args[0], ast.Name) and isinstance(n.args[1], ast.Constant) and n.args[1].value == "id":
+                out.append((n.args[0].id, "whole", n.args[2], n))
+    return out
+
+
+def _record_id_ok(p, gi, trees, recv: str, opened, keys) -> Tuple[bool, str]:
+    """the id of the record a local names is the looked-up key"""
+    stores = [s for s in _id_stores(trees) if s[0] == recv]
+    if stores:
+        for _, kind, v, n in stores:
+            good = _is_stem_expr(trees, v, opened, keys) if kind == "whole" else (kind == "elem0" and _is_splitext_of(v, opened))
+            if not good:
+                return False, "`%s`" % ast.unparse(n)
+        return True, "`%s`" % ast.unparse(stores[-1][3])
+    # never re-assigned: the constructor must have been given it
+    base = p.get_class("moclo.record.CircularRecord")
+    for t in trees:
+        for n in ast.walk(t):
+            if isinstance(n, ast.Assign) and any(isinstance(tg, ast.Name) and tg.id == recv for tg in n.targets) and isinstance(n.value, ast.Call):
+                try:
+                    v = p.resolve_expr(gi.module, n.value.func)
+                except Exception:
+                    v = None
+                if isinstance(v, ClassInfo) and p.is_subclass(v, base):
+                    e = next((k.value for k in n.value.keywords if k.arg == "id"), n.value.args[1] if len(n.value.args) > 1 else None)
+                    if e is not None:
+                        return _is_stem_expr(trees, e, opened, keys), "`%s`" % ast.unparse(n)
+    return False, "the id of `%s` is whatever the file declares (never set to the key)" % recv
+
+
+def _filesystem_id(p, gi: FuncInfo, opened) -> Tuple[bool, str]:
+    trees = expanded(gi)
+    keys = _key_names(gi)
+    recvs = {s[0] for s in _id_stores(trees)}
+    base = p.get_class("moclo.record.CircularRecord")
+    for t in trees:
+        for n in ast.walk(t):
+            if isinstance(n, ast.Assign) and isinstance(n.value, ast.Call) and len(n.targets) == 1 and isinstance(n.targets[0], ast.Name):
+                try:
+                    v = p.resolve_expr(gi.module, n.value.func)
+                except Exception:
+                    v = None
+                if isinstance(v, ClassInfo) and p.is_subclass(v, base):
+                    recvs.add(n.targets[0].id)
+    if not recvs or len(opened) != 1:
+        return False, "no record is built from an opened file"
+    what = []
+    for recv in sorted(recvs):
+        ok, w = _record_id_ok(p, gi, trees, recv, opened, keys)
+        what.append(w)
+        if not ok:
+            return False, w
+    return True, "; ".join(what)
+
+
+def _item_carries_id(p, gi: FuncInfo, item_calls, opened) -> Tuple[bool, str]:
+    if len(item_calls) != 1:
+        return False, "%d Item(...) constructions" % len(item_calls)
+    c = item_calls[0]
+    e = next((k.value for k in c.keywords if k.arg == "id"), c.args[0] if c.args else None)
+    if e is None:
+        return False, "Item(...) without id"
+    trees = expanded(gi)
+    keys = _key_names(gi)
+    e2 = _resolve_alias(trees, e)
+    if isinstance(e2, ast.Attribute) and e2.attr == "id" and isinstance(e2.value, ast.Name):
+        ok, w = _record_id_ok(p, gi, trees, e2.value.id, opened, keys)
+        return ok, "id=%s with %s" % (ast.unparse(e), w)
+    return _is_stem_expr(trees, e, opened, keys), "id=%s" % ast.unparse(e)
+
+
 def _self_attr_uses(fn: ast.AST, attr: str) -> List[ast.Attribute]:
     return [n for n in ast.walk(fn) if isinstance(n, ast.Attribute) and n.attr == attr and isinstance(n.value, ast.Name) and n.value.id == "self"]
 
@@ -193,6 +345,12 @@ def registry_rules(ctx, rule: str):
         if idkw is not None:
             idkw = ast.parse(ast.unparse(idkw), mode="eval").body
         ok = idkw is not None and _dump(key) == _dump(idkw) and ast.unparse(key).endswith(".id")
+        if not ok and isinstance(key, ast.Attribute) and key.attr == "id" and isinstance(key.value, ast.Name) and len(items) == 1:
+            # filed under <item>.id where <item> is the Item that is stored (built in place or by a helper of the class)
+            bound = [n.value for n in ast.walk(data.node) if isinstance(n, ast.Assign) and len(n.targets) == 1
+                     and isinstance(n.targets[0], ast.Name) and n.targets[0].id == key.value.id]
+            stored = stores[0].value if stores else comps[0].value
+            ok = len(bound) == 1 and _returns_item(p, data, bound[0], items) and isinstance(stored, ast.Name) and stored.id == key.value.id
         det = "an item must be filed under the id it carries: key `%s`, Item id `%s`" % (ast.unparse(key), ast.unparse(idkw) if idkw is not None else None)
     r.ob(rule + ".embedded-key-is-id", data.qualname, ok, det, data.where())
     wrap = [n for n in xwalk(data) if isinstance(n, ast.Call) and isinstance(n.func, ast.Name) and n.func.id == "CircularRecord"]
@@ -260,13 +418,12 @@ def registry_rules(ctx, rule: str):
         isinstance(n, ast.comprehension) and n.ifs for n in ast.walk(it.node))
     r.ob(rule + ".filesystem-siblings", it.qualname + "#stem", ok, "iteration must yield the stem of every enumerated file", it.where())
     # id is the stem of the opened file; fall-through raises KeyError
-    idset = [n for n in xwalk(gi) if isinstance(n, ast.Assign) and any("record.id" in ast.unparse(t) for t in n.targets)]
     opened = [ast.unparse(c.args[0]) for c in _calls(gi, "open") if c.args]
-    ok = len(idset) == 1 and len(opened) == 1 and ("splitext(%s)" % opened[0]) in ast.unparse(idset[0].value).replace(" ", "")
-    r.ob(rule + ".filesystem-id", gi.qualname, ok, "the item's id must be the stem of the file that was opened: `%s` (opened: %s)" % (ast.unparse(idset[0]) if idset else None, opened), gi.where())
+    ok, what = _filesystem_id(p, gi, opened)
+    r.ob(rule + ".filesystem-id", gi.qualname, ok, "the item's id must be the key looked up, i.e. the stem of the file that was opened: %s (opened: %s)" % (what, opened), gi.where())
     item_calls = [n for n in xwalk(gi) if isinstance(n, ast.Call) and isinstance(n.func, ast.Name) and n.func.id == "Item"]
-    ok = len(item_calls) == 1 and any(kw.arg == "id" and ast.unparse(kw.value) == "record.id" for kw in item_calls[0].keywords)
-    r.ob(rule + ".filesystem-id", gi.qualname + "#Item", ok, "the Item must carry the record's (re-assigned) id", gi.where())
+    ok, what = _item_carries_id(p, gi, item_calls, opened)
+    r.ob(rule + ".filesystem-id", gi.qualname + "#Item", ok, "the Item must carry the record's (re-assigned) id: %s" % what, gi.where())
     raises = [n for n in xwalk(gi) if isinstance(n, ast.Raise) and n.exc is not None]
     rets = [n for n in ast.walk(gi.node) if isinstance(n, ast.Return)]
     ok = (bool(raises) and all(ast.unparse(n.exc).startswith("KeyError(") for n in raises) and _terminates(gi.node.body)
